@@ -669,7 +669,9 @@ func (t *Table) IndexesDescription() ([]types.GlobalSecondaryIndexDescription, [
 	gsi := []types.GlobalSecondaryIndexDescription{}
 	lsi := []types.LocalSecondaryIndexDescription{}
 
-	for indexName, index := range t.Indexes {
+	for name, index := range t.Indexes {
+		// every description needs its own copy of the name, the loop variable is shared by all iterations
+		indexName := name
 		schema := index.keySchema.describe()
 		count := index.count()
 
